@@ -47,7 +47,9 @@ listen_dep  yes      Only passive communication mode
 import nfc.clf
 from . import device
 
+import os
 import time
+import errno
 import struct
 import operator
 from functools import reduce
@@ -917,6 +919,14 @@ class Device(device.Device):
         return 290
 
     def send_cmd_recv_rsp(self, target, data, timeout):
+        try:
+            return self._send_cmd_recv_rsp(target, data, timeout)
+        except StatusError as error:
+            # InSetRF or InSetProtocol command failed
+            log.error(error)
+            raise IOError(errno.EIO, os.strerror(errno.EIO))
+
+    def _send_cmd_recv_rsp(self, target, data, timeout):
         if timeout:
             timeout_msec = max(min(int(timeout * 1000), 0xFFFF), 1)
         else:
